@@ -123,7 +123,9 @@ End Select.
 (* the inputs of slot t of the gain vector, per family *)
 Definition key_und (st : state) (u t : nat) : list Q := [knm (ca st) u t; km (ca st) t].
 Definition key_two (st : state) (u t : nat) : list Q := [knm (ca st) u t; km (ca st) t; knm (cb st) u t; km (cb st) t].
-Definition key_B (st : state) (u t : nat) : list Q := [knm (ca st) u t].
+(* community_louvain: the node-to-module sums of the (non-integer) objective matrix are themselves rounded floats in the
+   code, so equal exact inputs do NOT give bitwise equal float gains: every slot counts as different *)
+Definition key_B (st : state) (u t : nat) : list Q := [inject_Z (Z.of_nat t)].
 
 (* ---------- whole runs generated from the permutation stream ---------- *)
 (* levels (each: its sweeps, each: its visits), (number of permutations left over, outcome) *)
